@@ -215,29 +215,33 @@ def pow2_bits(fr):
     return d.bit_length() - 1
 
 
-def exactness(case, bounds):
-    """True iff every float operation of the implementation on this case is exact:
-    (a) the real core.normalize reproduces the exact quotient for every feasible member,
-    (b) all clipped coordinates are multiples of 2^-h with nobjs*h <= 52, so every product and
-        sum inside calc_internal (values in [0,1], multiples of 2^-(nobjs*h)) is representable."""
-    from platypus.core import normalize
-    mins, maxs = bounds
-    p, ref, st = build_objects(case)
-    feas = [s for s in st if s.constraint_violation == 0.0]
-    if not feas:
-        return True
-    fmins, fmaxs = [float(x) for x in mins], [float(x) for x in maxs]
-    if [Fraction(x) for x in fmins] != list(mins) or [Fraction(x) for x in fmaxs] != list(maxs):
-        return False
+def fexact(fr):
+    """the rational fr is a binary64 float"""
     try:
-        normalize(feas, fmins, fmaxs)
-    except Exception:
-        return True   # rejected input: nothing is computed
+        return Fraction(float(fr)) == fr
+    except OverflowError:
+        return False
+
+
+def exactness(case, bounds):
+    """True iff every float operation of the implementation on this case is exact, decided on Fractions alone
+    (independently of the implementation): for every feasible member o - min, max - min and their quotient z are
+    binary64 numbers (so the correctly rounded float operations return them), z is a multiple of 2^-h, and
+    nobjs*h <= 52, so every clipped coordinate, product and sum inside calc_internal (values in [0,1], multiples
+    of 2^-(nobjs*h)) is representable."""
+    mins, maxs = bounds
+    if not all(fexact(x) for x in list(mins) + list(maxs)):
+        return False
     h = 0
-    for s in feas:
+    for sid, o, cv in case["set"]:
+        if cv != 0.0:
+            continue
         for i in range(case["nobjs"]):
-            z = (Fraction(s.objectives[i]) - mins[i]) / (maxs[i] - mins[i])
-            if Fraction(s.normalized_objectives[i]) != z:
+            a, b = Fraction(o[i]) - mins[i], maxs[i] - mins[i]
+            if b == 0:
+                return True     # rejected input: nothing is computed
+            z = a / b
+            if not (fexact(a) and fexact(b) and fexact(z)):
                 return False
             k = pow2_bits(z)
             if k is None:
@@ -572,7 +576,7 @@ def run(ctx):
     ctx.rule = ("function cases on dyadic grids (coordinates k/8 or k/4, bounds [0,1],[0,2],[-1,1],[0,4],[1,2],[-2,2],[0,.5] or a reference set spanning them): "
                 "2-5 objectives x every direction vector, 0-%d listed solutions with duplicates, single-coordinate ties, values on and beyond both bounds, infeasible members, "
                 "the same object listed twice, reference objects listed in the set, rejected bounds; a case is kept only if every float operation is exact "
-                "(real normalize == Fraction quotient, clipped coordinates multiples of 2^-h with nobjs*h <= 52), else discarded and counted. "
+                "(decided on Fractions: o-min, max-min and the quotient are binary64 numbers, clipped coordinates multiples of 2^-h with nobjs*h <= 52), else discarded and counted. "
                 "non-trivial = at least two distinct points enter the volume AND (a coordinate tie, a repeated object, a duplicate, an infeasible member, a clipped or dropped "
                 "point, or a maximised objective); distinct by full input. evaluations counts every call of the real Hypervolume (cases + metamorphic variants + float cases)" % maxn)
     if lits:
